@@ -422,9 +422,9 @@ def conformance(chk, pid, table, drv, tier, do_guided=True):
             chk.add_tlc("%s simulation behaviours n=%d" % (name, n), res)
             behs = [b for b in behs if b]
             if behs:
-                followed, total, gout = guided(chk, pid, drv, work, name, n, args, behs, "%s n=%d" % (name, n), fanout=cfg.get("fanout", 50))
+                followed, total, gout = guided(chk, pid, drv, work, name, n, args, behs, "%s n=%d" % (name, n), fanout=cfg.get("fanout", 0))
                 chk.traces += followed
-                fo = fanout_conformance(chk, pid, work, module, text, gout, cs, "%s n=%d" % (name, n), max_edges=cfg.get("max_edges", 3000))
+                fo = fanout_conformance(chk, pid, work, module, text, gout, cs, "%s n=%d" % (name, n), max_edges=cfg.get("max_edges", 3000)) if cfg.get("fanout", 0) else None
                 stats["guided"].append({"n": n, "followed": followed, "total": total, "fanout": fo})
     return stats
 
